@@ -3668,6 +3668,19 @@ void space_text()
                           __func__, __LINE__, pc->Text(), next->Text());
                   pc->SetFlagBits(PCF_FORCE_SPACE);
                }
+               else if (  language_is_set(lang_flag_e::LANG_PAWN)
+                       && (  (  first == '"'
+                             && (  last == '!'
+                                || last == '\\'))
+                          || (  last == '%'
+                             && unc_isdigit(first)
+                             && pc->TestFlags(PCF_IN_PREPROC))))
+               {
+                  // Pawn: '!"..."' and '\"..."' are packed / unpacked string literals, '%1' is a macro parameter
+                  LOG_FMT(LSPACE, "%s(%d): would tokenize differently: pc->Text() '%s', next->Text() '%s'\n",
+                          __func__, __LINE__, pc->Text(), next->Text());
+                  pc->SetFlagBits(PCF_FORCE_SPACE);
+               }
                else if (  !touched
                        && (  pc->Is(CT_NUMBER)
                           || pc->Is(CT_NUMBER_FP))
